@@ -335,3 +335,212 @@ def run_tok_correspondence(rep, cases, name="tokenizer"):
     rep.extra.setdefault("correspondence", {})[name] = {"requests": len(cases), "disagreements": len(bad), **kinds}
     rep.obligation(f"corr:{name} (token 5-tuples and raised error equal on {len(cases)} inputs)", not bad, str(bad[:2])[:600] if bad else "")
     return bad
+
+
+# ---------------------------------------------------------------- small helper models: macro capture, make_arguments, error builder
+def _enc_tok4(t):
+    return f"{t.type.name}|{enc_str(t.string)}|{t.start[0]}:{t.start[1]}|{t.end[0]}:{t.end[1]}"
+
+
+def _helper_cases(src: str, mode="exec"):
+    """Parse `src` with instrumented subclasses; returns a list of (request, expected answer, source) for every call of
+    consume_macro_params / make_arguments / _build_syntax_error that happened."""
+    import ast as _ast
+    import io
+
+    from peg_parser.parser import XonshParser
+    from peg_parser.tokenize import Token, TokenError, TokenInfo, generate_tokens
+    from peg_parser.tokenizer import Tokenizer
+
+    cases = []
+
+    class Log:
+        def __init__(self, it):
+            self.it = iter(it)
+            self.seen = []
+
+        def __iter__(self):
+            return self
+
+        def __next__(self):
+            t = next(self.it)
+            self.seen.append(t)
+            return t
+
+    class T(Tokenizer):
+        def consume_macro_params(self):
+            n0 = len(self._tokengen.seen)
+            stack0 = len(self._stack)
+            try:
+                res = super().consume_macro_params()
+                if res.type == Token.MACRO_PARAM:
+                    exp = f"param|{enc_str(res.string)}|{res.start[0]}:{res.start[1]}|{res.end[0]}:{res.end[1]}"
+                elif res.type == Token.WS:
+                    exp = f"blank|{enc_str(res.string)}|{res.start[0]}:{res.start[1]}|{res.end[0]}:{res.end[1]}"
+                else:
+                    exp = f"close|{enc_str(res.string)}|{res.start[0]}:{res.start[1]}|{res.end[0]}:{res.end[1]}"
+                err = None
+            except SyntaxError as e:
+                err, exp = e, None
+            except TokenError as e:
+                err, exp = e, "eof"
+            pulled = self._tokengen.seen[n0:]
+            na = sorted({c for t in pulled for c in t.string if ord(c) > 127 and c.isspace()})
+            sc = ",".join(str(ord(c)) for c in na) or "-"
+            req = "macro " + sc + " " + " ".join(_enc_tok4(t) for t in pulled)
+            if isinstance(err, SyntaxError):
+                exp = f"unmatched|{enc_str(pulled[-1].string)}"
+                full = f"{exp} consumed={len(pulled) - 1} pushed=false rest=0"
+            elif exp == "eof":
+                full = f"eof consumed={len(pulled)} pushed=false rest=0"
+            else:
+                pushed = len(self._stack) > stack0 or exp.startswith("close")
+                full = f"{exp} consumed={len(pulled) - 1} pushed={'true' if pushed else 'false'} rest=0"
+            if " " not in "".join(_enc_tok4(t) for t in pulled):
+                cases.append((req, full, src))
+            if err is not None:
+                raise err
+            return res
+
+    class P(XonshParser):
+        def make_arguments(self, pos_only, pos_only_with_default, param_no_default, param_default, after_star):
+            res = super().make_arguments(pos_only, pos_only_with_default, param_no_default, param_default, after_star)
+            ids = {}
+
+            def pid(x):
+                return ids.setdefault(id(x), len(ids))
+
+            def pairs(lst):
+                if lst is None:
+                    return "N"
+                if not lst:
+                    return "L"
+                return "L" + ",".join(f"{pid(p)}:{'-' if d is None else pid(d)}" for p, d in lst)
+
+            def plain(lst):
+                if lst is None:
+                    return "N"
+                if not lst:
+                    return "L"
+                return "L" + ",".join(str(pid(p)) for p in lst)
+
+            try:
+                a = pairs(pos_only)
+                b = pairs(pos_only_with_default)
+                c = plain(param_no_default)
+                d = pairs(param_default)
+                if after_star:
+                    va, kws, kwa = after_star
+                    req = f"makeargs {a} {b} {c} {d} {'-' if va is None else pid(va)} {pairs(kws)} {'-' if kwa is None else pid(kwa)} 1"
+                else:
+                    req = f"makeargs {a} {b} {c} {d} - L - 0"
+                l = lambda xs: ",".join(str(pid(x)) for x in xs)  # noqa: E731
+                o = lambda x: "-" if x is None else str(pid(x))  # noqa: E731
+                exp = f"posonly=[{l(res.posonlyargs)}] args=[{l(res.args)}] defaults=[{l(res.defaults)}] vararg={o(res.vararg)} kwonly=[{l(res.kwonlyargs)}] kwdefaults=[{','.join(o(x) for x in res.kw_defaults)}] kwarg={o(res.kwarg)}"
+                cases.append((req, exp, src))
+            except Exception:  # noqa: BLE001
+                pass
+            return res
+
+        def _build_syntax_error(self, message, start=None, end=None):
+            e = super()._build_syntax_error(message, start, end)
+            if start is not None and end is not None:
+                try:
+                    lines = self._tokenizer.get_lines(list(range(start[0], end[0] + 1)))
+                    tab = " ".join(f"{start[0] + i}={enc_str(ln)}" for i, ln in enumerate(lines))
+                    req = f"builderr {start[0]} {start[1]} {end[0]} {end[1]} {tab}".rstrip()
+                    exp = f"lineno={e.lineno} offset={e.offset} end_lineno={e.end_lineno} end_offset={e.end_offset} text={enc_str(e.text or '')}"
+                    cases.append((req, exp, src))
+                except Exception:  # noqa: BLE001
+                    pass
+            return e
+
+    try:
+        tz = T(Log(generate_tokens(io.StringIO(src).readline)))
+        tz._lines = dict(enumerate(io.StringIO(src).readlines(), 1))
+        P(tz).parse("file" if mode == "exec" else "eval")
+    except BaseException:  # noqa: BLE001
+        pass
+    return cases
+
+
+def helper_cases(srcs):
+    out = []
+    for r in _pooled("_helper_cases", [(s,) for s in srcs]):
+        if isinstance(r, list):
+            out.extend(tuple(x) for x in r)
+    return out
+
+
+def run_helper_correspondence(rep, cases, kinds=("macro", "makeargs", "builderr")):
+    by = {}
+    for c in cases:
+        k = c[0].split(" ", 1)[0]
+        if k in kinds:
+            by.setdefault(k, []).append(c)
+    bad_all = []
+    for k, cs in sorted(by.items()):
+        bad_all += run_correspondence(rep, {"macro": "consume_macro_params", "makeargs": "make_arguments", "builderr": "_build_syntax_error"}[k], cs)
+    return bad_all
+
+
+# ---------------------------------------------------------------- text -> outcome pipeline
+def _pipeline_case(src, mode="exec"):
+    if "!" in src.replace("!=", ""):
+        return None
+    from harness import impl
+
+    o = impl.parse(src, mode)
+    na = sorted({c for c in src if ord(c) > 127})
+    wc = ",".join(str(ord(c)) for c in na if c.isalnum()) or "-"
+    sc = ",".join(str(ord(c)) for c in na if c.isspace()) or "-"
+    req = f"pipeline {'file' if mode == 'exec' else 'eval'} 3000000 {wc} {sc} {enc_str(src)}"
+    if " " in enc_str(src):
+        return None
+    return (req, {k: o.get(k) for k in ("k", "cls", "msg", "lineno", "offset")}, src)
+
+
+def pipeline_cases(srcs, mode="exec"):
+    res = _pooled("_pipeline_case", [(s, mode) for s in srcs], timeout=30)
+    return [tuple(r) for r in res if isinstance(r, (tuple, list))]
+
+
+def run_pipeline_correspondence(rep, cases, name="pipeline (text -> outcome)"):
+    """End to end: tokenizer model + token source + recogniser IR vs parse_string: the OUTCOME CLASS must agree."""
+    if not DRIVER.exists():
+        rep.obligation(f"corr:{name}", False, "driver not built")
+        return []
+    answers = Driver().ask_many([c[0] for c in cases])
+    bad = []
+    stats = {}
+    for (req, obs, src), ans in zip(cases, answers):
+        head = ans.split(" ")[0]
+        k = obs["k"]
+        ok = None
+        if head == "undecided" or k in ("exc", "hang", "crash"):
+            stats["skipped"] = stats.get("skipped", 0) + 1
+            continue
+        if head == "tree":
+            ok = k == "tree"
+        elif head == "invalid":
+            ok = k == "err" and obs.get("msg") == "invalid syntax"
+        elif head == "raised":
+            ok = k == "err"
+        elif head == "tokenizer-error":
+            if "IndentationError" in ans:
+                ok = k == "err" and obs.get("cls") == "IndentationError"
+            else:
+                ok = k == "tokerr" and (obs.get("msg") or "").split(":")[0] in ans
+        else:
+            ok = False
+        if "assumed=true" in ans and k == "err" and head == "tree":
+            ok = None  # a helper (literal evaluation, version gate) raised: outside the recogniser's knowledge
+            stats["skipped"] = stats.get("skipped", 0) + 1
+            continue
+        if ok:
+            stats[head] = stats.get(head, 0) + 1
+        else:
+            bad.append({"source": src, "implementation": obs, "model": ans[:200]})
+    rep.extra.setdefault("correspondence", {})[name] = {"requests": len(cases), "disagreements": len(bad), **stats}
+    rep.obligation(f"corr:{name} (outcome class of the whole pipeline equal on {len(cases)} texts)", not bad, str(bad[:2])[:600] if bad else "")
+    return bad
